@@ -22,10 +22,10 @@ SPEC = {
              "constructor or config-decoded profile; each case once, 24 cases concurrently per process. How far ahead a token was when "
              "Next returned it is measured by a logging schedule wrapper. Non-trivial there = some token was handed out more than 1 s "
              "before its time and min(tokens, ammo) >= 2."),
-    "floors": {"TestAccounting/ammo_lt_tokens": 0.1, "TestAccounting/ammo_eq_tokens": 0.1, "TestAccounting/per_instance": 0.3,
+    "floors": {"TestAccounting/ammo_lt_tokens": 0.1, "TestAccounting/ammo_eq_tokens": 0.1, "TestAccounting/per_instance": 0.21,
                "TestAccounting/shared": 0.3, "TestAccounting/discards": 0.03, "TestAccounting/composite_profile": 0.3,
-               "TestAccounting/profile_via_config": 0.1, "TestAccounting/ammo_ran_out_while_instances_were_still_being_started": 0.1, "TestAccounting/per_instance_composite_via_config": 0.05,
-               "TestSparseProfiles/token_handed_out_more_than_1s_ahead": 0.5, "TestSparseProfiles/token_handed_out_more_than_2s_ahead": 1,
+               "TestAccounting/profile_via_config": 0.1, "TestAccounting/ammo_ran_out_while_instances_were_still_being_started": 0.1, "TestAccounting/per_instance_composite_via_config": 0.036,
+               "TestSparseProfiles/token_handed_out_more_than_1s_ahead": 0.35, "TestSparseProfiles/token_handed_out_more_than_2s_ahead": 1,
                "TestSparseProfiles/several_instances_waited_more_than_1s": 0.15, "TestSparseProfiles/far_token_and_bounded_ammo": 0.05,
                "TestSparseProfiles/shape_const_below_1rps": 0.04, "TestSparseProfiles/shape_pause_between_parts": 0.04,
                "TestSparseProfiles/per_instance": 0.2, "TestSparseProfiles/shared": 0.2},
